@@ -167,7 +167,15 @@ impl Covercrypt {
         mpk: &MasterPublicKey,
         encapsulation: &XEnc,
     ) -> Result<(Secret<32>, XEnc), Error> {
-        let (_ss, rights) = full_decaps(msk, encapsulation)?;
+        let (_ss, mut rights) = full_decaps(msk, encapsulation)?;
+        // Some of the original rights may not be published anymore (deactivated
+        // or deleted attributes): target those that still are.
+        rights.retain(|r| mpk.can_encrypt_for(r));
+        if rights.is_empty() {
+            return Err(Error::OperationNotPermitted(
+                "none of the rights of this encapsulation can be encrypted for anymore".to_string(),
+            ));
+        }
         #[cfg(feature = "verif-hooks")]
         crate::verif_hooks::lock_event("recaps");
         primitives::encaps(
